@@ -18,6 +18,14 @@ Inductive frame_type := SingleFrame | AllFrame | NoFrame.
 (* unknown texts behave like single_frame *)
 Definition collects (ft : frame_type) (i : nat) : bool :=
   match ft with NoFrame => false | AllFrame => true | SingleFrame => Nat.eqb i 0 end.
+(* the text of the frame_type argument (absent: single_frame) *)
+Definition s_no_frame : str := [110; 111; 95; 102; 114; 97; 109; 101].
+Definition s_all_frame : str := [97; 108; 108; 95; 102; 114; 97; 109; 101].
+Definition frame_type_of_text (t : option str) : frame_type :=
+  match t with
+  | Some s => if str_eqb s s_no_frame then NoFrame else if str_eqb s s_all_frame then AllFrame else SingleFrame
+  | None => SingleFrame
+  end.
 Fixpoint collect_flags_from (ft : frame_type) (i n : nat) : list bool :=
   match n with O => [] | S k => collects ft i :: collect_flags_from ft (S i) k end.
 
